@@ -202,15 +202,21 @@ func genItem(r *rand.Rand, o GenOpts, cur string, d *Doc) *Item {
 
 // Gen generates one document.
 func Gen(r *rand.Rand, o GenOpts) *Doc {
-	ri := regimes[0]
+	table := registry().table // the table above first, then every other registered regime, then "no regime"
+	ri := table[0]
 	switch x := r.Intn(20); {
 	case x < 12:
-	case x < 16:
-		ri = regimes[1]
+	case x < 15:
+		ri = table[1]
+	case x < 18:
+		ri = pick(r, table)
 	default:
-		ri = pick(r, regimes)
+		ri = pick(r, registry().special) // regimes registered under several codes, regimes with keys left to the issuer, no regime
 	}
 	d := &Doc{Country: ri.country}
+	if len(ri.alts) > 0 && r.Intn(3) == 0 {
+		d.Country = pick(r, ri.alts) // a supplier under another code of the same regime
+	}
 	switch x := r.Intn(20); {
 	case x < 14:
 		d.Cur = "EUR"
@@ -275,7 +281,7 @@ func Gen(r *rand.Rand, o GenOpts) *Doc {
 				l.Item.Price = nil
 			}
 		}
-		l.Taxes = genCombos(r, ri, d.Includes)
+		l.Taxes = genCombos(r, ri.regimeInfo, d.Includes)
 		d.Lines = append(d.Lines, l)
 	}
 	genDocAdj := func() DocAdj {
@@ -300,7 +306,7 @@ func Gen(r *rand.Rand, o GenOpts) *Doc {
 				a.Amount = Amt{a.Amount.V, c}
 			}
 		}
-		a.Taxes = genCombos(r, ri, d.Includes)
+		a.Taxes = genCombos(r, ri.regimeInfo, d.Includes)
 		return a
 	}
 	for k := r.Intn(6) - 3; k > 0; k-- {
@@ -349,6 +355,7 @@ func Gen(r *rand.Rand, o GenOpts) *Doc {
 			break
 		}
 	}
+	genRegimeFamilies(r, d, ri)
 	if !o.NoRounding && r.Intn(25) == 0 {
 		maxE := int(c)
 		if !o.CurrencyOnly && r.Intn(3) == 0 {
